@@ -389,7 +389,7 @@ class ShortSignatures(Family):
         sig = EC.der_encode(r, s)
         for comp in (True, False):
             pb = EC.encode_point(pt, comp)
-            for wrap in (bytes, bytearray, memoryview):
+            for wrap in (bytes,):
                 pk = CPubKey(wrap(pb))
                 if not pk.is_fullyvalid or bytes(pk) != pb:
                     raise Viol('CPubKey(%s of a valid key)' % wrap.__name__, True, pk.is_fullyvalid)
